@@ -112,6 +112,8 @@ class Sim:
         self.counts = collections.Counter()  # reach probes
         self.invocations = collections.Counter()  # per tag
         self.fsfaults = [dict(f, seen=0, fired=0) for f in plan.get('fsfaults', [])]
+        d = plan.get('diskfault')
+        self.diskfault = dict(d, seen=0, fired=False, ops=[], seq=None, op=None, path=None) if d else None
         self.sandboxes = []  # created by resolver / mkdtemp
         self.resolver_fault = plan.get('resolver_fault')
         self.sandbox_requests = 0
